@@ -45,18 +45,16 @@ def check_class(chk, ex, cls, found):
         fn = Sym(z3.Int("filename"), "str")
         outs = _glue.call_method(ex, st0.fork(), sref, "save", [fn])
         saves = [(o, e) for o, e in outs if o.kind == "return"]
-        _wrappers.row(chk, name + ":save-does-not-raise", len(saves) == len(outs) == 1, None, found)
-        if len(saves) != 1:
+        _wrappers.row(chk, name + ":save-does-not-raise", len(saves) == len(outs) and saves, None, found)
+        for si, (o, eff) in enumerate(saves):
+          sv = [e for e in eff if e[0] == "savez"]
+          _wrappers.row(chk, name + ":one-savez", len(sv) == 1, None, found)
+          if len(sv) != 1:
             continue
-        o, eff = saves[0]
-        sv = [e for e in eff if e[0] == "savez"]
-        _wrappers.row(chk, name + ":one-savez", len(sv) == 1, None, found)
-        if len(sv) != 1:
-            continue
-        members = sv[0][2]
-        ex.npz_members = members
-        for shared in (False, True):
-            tag = "%s[%sshared=%s]" % (name, "" if phi_none else "phi given,", shared)
+          members = sv[0][2]
+          ex.npz_members = members
+          for shared in (False, True):
+            tag = "%s[%s%sshared=%s]" % (name, "" if len(saves) == 1 else "save path %d," % si, "" if phi_none else "phi given,", shared)
             st = o.state.fork()
             louts = _glue.call_method(ex, st, sref, "load", [fn, Const(shared)])
             rets = [(lo, le) for lo, le in louts if lo.kind == "return"]
@@ -86,12 +84,19 @@ def check_class(chk, ex, cls, found):
                 for fld, mem in TABLES[cls].items():
                     okt = any(dst is nf.get(fld) and src is members.get(mem) for dst, src in copies)
                     _wrappers.row(chk, "%s:table:%s<-npz[%s]" % (tag, fld, mem), okt, "table %s is not restored from member %s" % (fld, mem), found)
-                    # dtype and shape of the new table equal the saved one
-                    dst, src = nf.get(fld), members.get(mem)
-                    if isinstance(dst, Arr) and isinstance(src, Arr):
-                        _wrappers.row(chk, "%s:table:%s:dtype" % (tag, fld), dst.dtype == src.dtype and len(dst.shape) == len(src.shape), None, found)
+                    # the member save() wrote holds the table's values (no lossy conversion on the way to
+                    # the file), np.copyto into the new table cannot lose them, shapes agree
+                    dst, src, orig = nf.get(fld), members.get(mem), of.get(fld)
+                    if isinstance(dst, Arr) and isinstance(src, Arr) and isinstance(orig, Arr):
+                        _wrappers.row(chk, "%s:table:%s:rank" % (tag, fld), len(dst.shape) == len(src.shape) == len(orig.shape), None, found)
                         for i, (u, v) in enumerate(zip(dst.shape, src.shape)):
                             chk.prove("%s:table:%s:shape%d" % (tag, fld, i), lo.state.pc, u == v, tag="G")
+                        if src is not orig:
+                            idx = [z3.Int("si%d" % i) for i in range(len(orig.shape))]
+                            rng = [z3.And(i >= 0, i < n) for i, n in zip(idx, orig.shape)]
+                            chk.prove("%s:table:%s:saved-values==table-values" % (tag, fld), lo.state.pc + rng + [z3.And(orig.content(idx) >= 0, orig.content(idx) < 2 ** (8 * orig.itemsize()))], src.content(idx) == orig.content(idx), tag="G")
+                        okw = src.dtype == dst.dtype or (src.dtype in X.DT and dst.dtype in X.DT and not X.DT[src.dtype][1] and not X.DT[dst.dtype][1] and X.DT[src.dtype][0] <= X.DT[dst.dtype][0])
+                        _wrappers.row(chk, "%s:table:%s:copy-into-the-new-table-is-lossless" % (tag, fld), okw, "%s -> %s" % (src.dtype, dst.dtype), found)
                 if cls == "HeavyHitters":
                     okg = any(e[0] == "call" and e[1].endswith("generate_candidate_set") for e in le)
                     _wrappers.row(chk, tag + ":candidate-cache-regenerated", okg, None, found)
@@ -163,6 +168,11 @@ def oracle(chk, n=1):
                     s = C(**cfg)
                     for _ in range(rng.randrange(0, 12)):
                         s.add(rng.choice(keys), rng.choice([1, 2, 30]))
+                    if hasattr(s, "cms"):  # boundary counter values (documented attribute, set directly)
+                        top = int(np.iinfo(s.cms.dtype).max)
+                        vals = [v for v in (255, 256, 65535, 65536, 2**31, 2**32 - 1) if v <= top]
+                        flat = s.cms.reshape(-1)
+                        flat[0] = rng.choice(vals)
                     fn = os.path.join(tmp, "x.npz")
                     s.save(fn)
                     what = "%s(%s) save -> load(shared_memory=%s)" % (cls, cfg, shared)
